@@ -166,7 +166,7 @@ func init() {
 						sent = strings.TrimPrefix(e, "PLUGIN_PROTOCOL_VERSIONS=")
 					}
 				}
-				x.Data["sent"] = sent
+				x.Put("sent", sent)
 				val := sent
 				switch p["env"] {
 				case "missing":
@@ -176,15 +176,17 @@ func init() {
 				case "dup":
 					val = sent + "," + sent
 				}
-				x.Data["envval"] = val
+				x.Put("envval", val)
 				os.Setenv("PLUGIN_PROTOCOL_VERSIONS", val)
 				ver, proto, set := plugin.VProtocolVersion(opts)
 				os.Unsetenv("PLUGIN_PROTOCOL_VERSIONS")
-				x.Data["pver"], x.Data["pproto"], x.Data["ptag"] = ver, string(proto), tagOf(set)
+				x.Put("pver", ver)
+				x.Put("pproto", string(proto))
+				x.Put("ptag", tagOf(set))
 				fmt.Fprintf(r.stdout, "%d|%d|%s|%s|%s|%s\n", plugin.CoreProtocolVersion, ver, "tcp", "127.0.0.1:1234", proto, "")
 				r.waitKilled()
 			})
-			x.Data["runner"] = r
+			x.Put("runner", r)
 			cfg := &plugin.ClientConfig{
 				HandshakeConfig:  plugin.HandshakeConfig{MagicCookieKey: "VK", MagicCookieValue: "vv"},
 				AllowedProtocols: []plugin.Protocol{plugin.ProtocolNetRPC, plugin.ProtocolGRPC},
@@ -204,17 +206,19 @@ func init() {
 				}
 			}
 			cl := plugin.NewClient(cfg)
-			x.Data["client"], x.Data["cfg"] = cl, cfg
+			x.Put("client", cl)
+			x.Put("cfg", cfg)
 			func() {
 				defer func() {
 					if rec := recover(); rec != nil {
-						x.Data["panic"] = fmt.Sprint(rec)
+						x.Put("panic", fmt.Sprint(rec))
 					}
 				}()
 				_, err := cl.Start()
-				x.Data["started"], x.Data["err"] = true, err
+				x.Put("started", true)
+				x.Put("err", err)
 			}()
-			x.Data["killsAtReturn"] = r.killCount()
+			x.Put("killsAtReturn", r.killCount())
 			cl.Kill()
 		},
 		Check: func(x *vs.Exec, p explore.Params) {
@@ -277,7 +281,7 @@ func init() {
 			pver := x.Data["pver"].(int)
 			ptag := x.Data["ptag"].(string)
 			pproto := x.Data["pproto"].(string)
-			x.Data["nontrivial"] = len(H) > 1 || len(P) > 1
+			x.Put("nontrivial", len(H) > 1 || len(P) > 1)
 			x.Obs("common=%v ok=%v", common >= 0, err == nil)
 			if pver != want {
 				x.Fail("S", "plugin announced version %d, expected %d (highest common, else its lowest) [%s]", pver, want, desc)
